@@ -47,7 +47,7 @@ def paddedOk (ts : List (List Char)) (d : List Char) (pads : List (Nat × Nat)) 
   ps.length == ts.length && ps.all (fun t => !isInfix d t) && (ps.isEmpty || split (join d ps) d == ps)
 
 def inDomain (fs : List Field) (vs : List Val) (d : List Char) : Bool :=
-  !d.isEmpty && fs.length == vs.length && !d.all isStripWs &&
+  !d.isEmpty && fs.length == vs.length && (!d.all isStripWs || d.all (fun c => c == ' ' || c == '\t')) &&
   (fs.zip vs).all (fun (f, v) => Spec.C01.fieldInDomain f v) &&
   match tokens fs vs with
   | some ts => tokensOk ts d
